@@ -166,6 +166,9 @@ pub struct ProposalSpec {
     pub deposit: u64,
     pub reward: Cred,
     pub action: ActionSpec,
+    /// the same anchored document (same hash) published under another url
+    #[serde(default)]
+    pub mirror: u8,
 }
 
 #[derive(Serialize, Deserialize, Clone, Debug, PartialEq, Eq, Hash)]
